@@ -5,14 +5,13 @@ Theorems over the latency part of the Mux model (`Code/Wrap.lean`: `MuxL`, `MuxW
 `checkFullness`) inside the tunnel world (`Code/Tunnel.lean`).  Helper lemmas: `Lemmas/Latency`.
 -/
 import SshuttleModel.Lemmas.Latency
+import SshuttleModel.Lemmas.MuxMove
 import SshuttleModel.Props.C01
 
 namespace Sshuttle.Tunnel
 open Sshuttle.Mux (Frame)
 open Sshuttle.Wrap
 
-abbrev PING := Generated.CMD_PING
-abbrev PONG := Generated.CMD_PONG
 
 /-! ## 1. the gate, the bound, ping-once: one end -/
 
@@ -88,12 +87,6 @@ theorem AnsInv.symm {cm sm : MuxL} (h : AnsInv cm sm) : AnsInv sm cm := ⟨h.2, 
 
 theorem AnsInv.growS {cm sm sm' : MuxL} (h : AnsInv cm sm) (g : Grow2 sm sm') : AnsInv cm sm' :=
   (h.symm.growC g).symm
-
-/-- What the receiving end's mux looks like after its `got_packet` handled frame `fr`. -/
-def afterFrame (fr : Frame) (m : MuxL) : MuxL :=
-  if fr.cmd == PING then m.send 0 PONG fr.data
-  else if fr.cmd == PONG then { m with tooFull := false, fullness := 0 }
-  else m
 
 /-- **A PING is always answered**, whatever the state of the end that receives it (also when that
 end is itself paused), and a PONG always lifts the pause. -/
@@ -171,72 +164,6 @@ theorem AnsInv.check {cm sm : MuxL} (h : AnsInv cm sm) (b : Nat) : AnsInv (cm.ch
       refine ⟨fun _ => Or.inl ⟨⟨0, PING, bytesOfStr Generated.PING_RTT_PAYLOAD⟩, by simp [MuxL.send], rfl⟩, fun hs => ?_⟩
       exact (h.2 hs).elim Or.inl (fun a => Or.inr (by simpa [MuxL.send] using pongIn_append _ a))
   · exact h
-
-/-! ### the muxes along a world step -/
-
-theorem connectS_mux (w : World) (fr : Frame) (conn : ConnRes) :
-    (w.connectS fr conn).cm = w.cm ∧ (w.connectS fr conn).sm = w.sm := by
-  unfold World.connectS
-  split
-  · exact ⟨rfl, rfl⟩
-  · split
-    · exact ⟨rfl, rfl⟩
-    · split
-      · exact ⟨rfl, rfl⟩
-      · split <;> exact ⟨rfl, rfl⟩
-
-theorem dispatchAt_mux (w : World) (e : End) (fr : Frame) :
-    (w.dispatchAt e fr).cm = w.cm ∧ (w.dispatchAt e fr).sm = w.sm := by
-  unfold World.dispatchAt; split <;> exact ⟨rfl, rfl⟩
-
-theorem deliverS_mux (w : World) (conn : ConnRes) :
-    ((w.deliverS conn).cm = w.cm ∧ (w.deliverS conn).sm = w.sm ∧ w.cm.out = []) ∨
-    ∃ fr rest, w.cm.out = fr :: rest ∧ (w.deliverS conn).cm = { w.cm with out := rest } ∧
-      (w.deliverS conn).sm = afterFrame fr w.sm := by
-  unfold World.deliverS
-  cases ho : w.cm.out with
-  | nil => left; exact ⟨rfl, rfl, rfl⟩
-  | cons fr rest =>
-    right
-    refine ⟨fr, rest, rfl, ?_⟩
-    simp only [afterFrame]
-    by_cases h1 : (fr.cmd == Generated.CMD_PING) = true
-    · rw [if_pos h1, if_pos h1]; exact ⟨rfl, rfl⟩
-    · rw [if_neg h1, if_neg h1]
-      by_cases h2 : (fr.cmd == Generated.CMD_PONG) = true
-      · rw [if_pos h2, if_pos h2]; exact ⟨rfl, rfl⟩
-      · rw [if_neg h2, if_neg h2]
-        split
-        · have := connectS_mux { w with cm := { w.cm with out := rest } } fr conn
-          exact ⟨this.1, this.2⟩
-        · split
-          · exact ⟨rfl, rfl⟩
-          · have := dispatchAt_mux { w with cm := { w.cm with out := rest } } .server fr
-            exact ⟨this.1, this.2⟩
-
-theorem deliverC_mux (w : World) :
-    (w.deliverC.cm = w.cm ∧ w.deliverC.sm = w.sm ∧ w.sm.out = []) ∨
-    ∃ fr rest, w.sm.out = fr :: rest ∧ w.deliverC.sm = { w.sm with out := rest } ∧
-      w.deliverC.cm = afterFrame fr w.cm := by
-  unfold World.deliverC
-  cases ho : w.sm.out with
-  | nil => left; exact ⟨rfl, rfl, rfl⟩
-  | cons fr rest =>
-    right
-    refine ⟨fr, rest, rfl, ?_⟩
-    simp only [afterFrame]
-    by_cases h1 : (fr.cmd == Generated.CMD_PING) = true
-    · rw [if_pos h1, if_pos h1]; exact ⟨rfl, rfl⟩
-    · rw [if_neg h1, if_neg h1]
-      by_cases h2 : (fr.cmd == Generated.CMD_PONG) = true
-      · rw [if_pos h2, if_pos h2]; exact ⟨rfl, rfl⟩
-      · rw [if_neg h2, if_neg h2]
-        split
-        · split <;> exact ⟨rfl, rfl⟩
-        · split
-          · exact ⟨rfl, rfl⟩
-          · have := dispatchAt_mux { w with sm := { w.sm with out := rest } } .client fr
-            exact ⟨this.2, this.1⟩
 
 /-- How the two muxes move in one raw step. -/
 inductive MuxMove (w w' : World) (st : Step) : Prop
